@@ -197,6 +197,16 @@ func runClientSCIONNTS(e *netEnv, a []val, grace bool) string {
 		p.mu.Lock()
 		p.keLens, p.server = keLens, server
 		p.mu.Unlock()
+		if grace {
+			// requests of earlier calls that nobody answered are still queued on the peer's socket
+			drain := make([]byte, 65536)
+			for {
+				conn.SetReadDeadline(time.Now().Add(time.Millisecond))
+				if _, _, err := conn.ReadFromUDP(drain); err != nil {
+					break
+				}
+			}
+		}
 		done := make(chan struct{})
 		go func() {
 			defer close(done)
@@ -208,6 +218,9 @@ func runClientSCIONNTS(e *netEnv, a []val, grace bool) string {
 					return
 				}
 				pl, srcPort, ok := scionPayload(buf[:n])
+				if debugOn {
+					note(fmt.Sprintf("scionnts peer %d: exchange %d from %v: %d bytes ok=%v", port, k, src, len(pl), ok))
+				}
 				if !ok || len(pl) < 48 {
 					return
 				}
